@@ -478,6 +478,9 @@ def evalSimple (d : Decls) (defs : Defs) (e : Expr) : Except String Value :=
   let env : EvalEnv :=
     { var := fun level path =>
         if level == 0 && (path.head? == some "$" || path.head? == some "pc") then .ok .unknown
+        else if level == 0 && (match path.head? with | some n => isAsmBuiltinName n | none => false) then
+          -- built-in functions take precedence over symbols, as in `evalVariable`
+          .ok (.asmBuiltin (path.head?.getD ""))
         else match d.symbols.tryGetByName [] level path with
           | some r => match defs.symbols.getD r none with
             | some s => .ok s.value
